@@ -99,6 +99,8 @@ _UNSET = '<unset>'
 def check_chunked(c, st):
     iu = common.load('iterutils')
     data, size, kind = c['data'], c['size'], c['kind']
+    if c.get('data_n') is not None:
+        data = [i % 7 for i in range(c['data_n'])]
     kw = {}
     if c['fill'] != _UNSET:
         kw['fill'] = c['fill']
@@ -114,14 +116,16 @@ def check_chunked(c, st):
     want = chunks if c['count'] is None else chunks[:c['count']]
     got = outcome(lambda: iu.chunked(mk(kind, data), size, c['count'], **kw))
     st.monitor_evals += 1
+    clip = (lambda x: repr(x)[:400]) if c.get('data_n') is not None else repr
     if got != ('ok', want):
-        return ('chunked:%s%s%s' % (kind, ':fill' if kw else '', ':count' if c['count'] is not None else ''),
-                'chunked(%r, %d, count=%r, %r) = %r, want %r' % (data, size, c['count'], kw, got, want))
+        return ('chunked:%s%s%s' % (kind if c.get('data_n') is None else 'long-input', ':fill' if kw else '',
+                                    ':count' if c['count'] is not None else ''),
+                'chunked(%s, %d, count=%r, %r) = %s, want %s' % (clip(data), size, c['count'], kw, clip(got), clip(want)))
     got2 = outcome(lambda: list(iu.chunked_iter(mk(kind, data), size, **kw)))
     st.monitor_evals += 1
     if got2 != ('ok', want_all):
-        return ('chunked_iter:%s' % kind, 'chunked_iter(%r, %d, %r) = %r, want %r'
-                % (data, size, kw, got2, want_all))
+        return ('chunked_iter:%s' % (kind if c.get('data_n') is None else 'long-input'), 'chunked_iter(%s, %d, %r) = %s, want %s'
+                % (clip(data), size, kw, clip(got2), clip(want_all)))
     if kind == 'list' and not kw and len(data) >= size:     # (a first chunk that came up short has exhausted the list iterator)
         # the work-list idiom: items appended to the list while the lazy chunked_iter is being consumed are
         # delivered too (that is what iterating a growing list gives)
@@ -152,6 +156,9 @@ def check_chunked(c, st):
 def check_windowed(c, st):
     iu = common.load('iterutils')
     data, size, kind = c['data'], c['size'], c['kind']
+    if c.get('data_n') is not None:
+        # long inputs (thousands of items: whatever buffering or block size the implementation uses is crossed)
+        data = [i % 7 for i in range(c['data_n'])]
     s = list(mk(kind, data)) if kind == 'own-iter-list' else list(data)
     if c['fill'] == _UNSET:
         want = [tuple(s[i:i + size]) for i in range(len(s) - size + 1)]
@@ -164,6 +171,14 @@ def check_windowed(c, st):
     got_i = outcome(lambda: list(iu.windowed_iter(mk(kind, data), size, **kw)))
     st.monitor_evals += 2
     if got != ('ok', want) or got_i != ('ok', want):
+        if c.get('data_n') is not None:
+            bad = next((i for i, w in enumerate(want) if got[0] != 'ok' or i >= len(got[1]) or got[1][i] != w
+                        or got_i[0] != 'ok' or i >= len(got_i[1]) or got_i[1][i] != w), len(want))
+            return ('windowed:long-input%s' % (':fill' if kw else ''),
+                    'windowed(<%d items>, %d, %r): %s / %s windows, want %d; first difference at window %d: %r / %r, want %r'
+                    % (len(data), size, kw, len(got[1]) if got[0] == 'ok' else got, len(got_i[1]) if got_i[0] == 'ok' else got_i,
+                       len(want), bad, got[1][bad:bad + 1] if got[0] == 'ok' else None,
+                       got_i[1][bad:bad + 1] if got_i[0] == 'ok' else None, want[bad:bad + 1]))
         return ('windowed:%s%s' % (kind, ':fill' if kw else ''),
                 'windowed(%r, %d, %r) = %r / iter %r, want %r' % (data, size, kw, got, got_i, want))
     if size == 2:
@@ -174,7 +189,9 @@ def check_windowed(c, st):
         if gp != ('ok', want) or gpi != ('ok', want):
             return ('pairwise:%s' % kind, 'pairwise(%r, %r) = %r / %r, want %r' % (data, kw2, gp, gpi, want))
     if len(want) >= 2:
-        st.see(('windowed', kind, size, tuple(data), c['fill']))
+        st.see(('windowed', kind, size, tuple(data) if c.get('data_n') is None else c['data_n'], c['fill']))
+    if c.get('data_n') is not None:
+        st.count('windowed_long_inputs')
     caller_edits(got, got_i)
     st.count('windowed')
     return None
@@ -537,6 +554,19 @@ def shrink(case, fails):
 def run(ctx):
     n = {'quick': 120000, 'thorough': 3000000}[ctx.tier]
     explore_cases(ctx, gen, check, n, 'iter', shrink)
+    # windows over long inputs: lengths around powers of two and just past them by less than a window
+    j = 0
+    for base_n in (256, 1024, 4096, 8192, 16384, 65536) if ctx.thorough else (1024, 4096, 8192):
+        for size in (2, 3, 5, 12, 100):
+            for dn in sorted(set([-1, 0, 1, 2, size - 2, size - 1, size, size + 1])):
+                for fill in (_UNSET, -1):
+                    j += 1
+                    if j % ctx.nshards != ctx.shard:
+                        continue
+                    run_case(ctx, {'fn': 'windowed', 'kind': ['list', 'iter', 'gen'][j % 3], 'data': [], 'data_n': base_n + dn,
+                                   'size': size, 'fill': fill}, check, 'long')
+                    run_case(ctx, {'fn': 'chunked', 'kind': ['list', 'iter', 'gen'][j % 3], 'data': [], 'data_n': base_n + dn,
+                                   'size': size, 'fill': fill, 'count': [None, None, 3, 5000][j % 4]}, check, 'long')
     # chunk_ranges grid: a slice in quick, the full grid (sharded) in thorough
     i = 0
     step = 1 if ctx.thorough else 23
